@@ -1005,24 +1005,29 @@ func splitProgram(prog []byte, k int, r *sim.Rand) [][]byte {
 func (d *docState) applyRevOp(op int, set map[int]Obj, rev int) (free []int) {
 	r := d.r.Split("rev" + strconv.Itoa(rev))
 	switch op {
-	case 1: // add a page at a random position of a random leaf-level node
-		var holders []int
-		for _, n := range SortedNums(d.nodeParent) {
-			for _, k := range d.nodeKids[n] {
-				if k < 0 {
-					holders = append(holders, n)
-					break
+	case 1: // add a page at a random position of the page sequence
+		// The position is chosen in the logical page order, so that the same
+		// logical document results whatever the shape of the page tree.
+		at := r.Intn(len(d.pages) + 1)
+		node, pos := d.rootNode, len(d.nodeKids[d.rootNode])
+		if len(d.pages) > 0 {
+			nb, after := d.pages[len(d.pages)-1], true
+			if at < len(d.pages) {
+				nb, after = d.pages[at], false
+			}
+			node = nb.parent
+			for i, k := range d.nodeKids[node] {
+				if k == -nb.num {
+					pos = i
+					if after {
+						pos = i + 1
+					}
 				}
 			}
 		}
-		if len(holders) == 0 {
-			holders = []int{d.rootNode}
-		}
-		node := sim.Pick(r, holders)
 		p := &pageState{num: d.alloc(), parent: node, serial: d.nextSerial()}
 		kids := d.nodeKids[node]
-		pos := r.Intn(len(kids) + 1)
-		kids = append(kids[:pos], append([]int{-p.num}, kids[pos:]...)...)
+		kids = append(kids[:pos:pos], append([]int{-p.num}, kids[pos:]...)...)
 		d.nodeKids[node] = kids
 		d.pages = append(d.pages, p)
 		d.pages = d.pagesInTreeOrder()
